@@ -56,6 +56,8 @@ fn main() {
                 let tag = json!({"case": case, "seed": seed});
                 let mut cfg = testonly::new_configs(&mut rng, &setup, 0).remove(0);
                 cfg.gossip.dynamic_inbound_limit = 10;
+                // a call that gets no answer must time out (production default: 10 s)
+                cfg.rpc.get_block_timeout = Some(time::Duration::milliseconds(300));
                 let (evil_cfg, honest_cfg) = (gv::test_config(rng.gen()), gv::test_config(rng.gen()));
                 let rep_outer = rep.clone();
                 let (genuine, forged, setup, rep, cfg, case, evil_cfg, honest_cfg, tag) = (genuine.clone(), forged.clone(), setup.clone(), rep.clone(), cfg.clone(), case.clone(), evil_cfg.clone(), honest_cfg.clone(), tag.clone());
@@ -113,8 +115,14 @@ fn main() {
                         return Ok(());
                     };
                     let state = BlockStoreState { first: validator::BlockNumber(first), last: Some(last_of(&genuine[ann])) };
+                    // "silent": the handler does not return until the harness releases it (or 6 s pass) - the connection stays open, no answer comes
+                    let silent_case = script.iter().any(|a| a == "silent");
+                    let silent_hit = Arc::new(std::sync::atomic::AtomicBool::new(false));
+                    let (rel_tx, rel_rx) = std::sync::mpsc::channel::<()>();
+                    let rel_rx = Arc::new(Mutex::new(rel_rx));
                     let respond: Arc<dyn Fn(u64) -> Option<validator::Block> + Send + Sync> = {
                         let (script, pos, gave_bad, genuine, forged) = (script.clone(), pos.clone(), gave_bad.clone(), genuine.clone(), forged.clone());
+                        let (silent_hit, rel_rx) = (silent_hit.clone(), rel_rx.clone());
                         Arc::new(move |n: u64| {
                             let mut p = pos.lock().unwrap();
                             let ans = script.get(*p).cloned().unwrap_or_else(|| "none".to_string());
@@ -127,12 +135,32 @@ fn main() {
                                 "right" => Some(genuine[i].clone()),
                                 "other" => Some(genuine[(i + 1) % genuine.len()].clone()),
                                 "forged" => Some(forged[i].clone()),
+                                "silent" => {
+                                    drop(p);
+                                    silent_hit.store(true, std::sync::atomic::Ordering::SeqCst);
+                                    let _ = rel_rx.lock().unwrap().recv_timeout(std::time::Duration::from_secs(6));
+                                    None
+                                }
                                 _ => None,
                             }
                         })
                     };
                     let ended = Arc::new(Mutex::new(None::<String>));
-                    {
+                    if silent_case {
+                        let (ended3, requested2) = (ended.clone(), requested.clone());
+                        s.spawn_bg(async move {
+                            let how = gv::serve_blocks(ctx, conn, state, respond, requested2).await;
+                            *ended3.lock().unwrap() = Some(how);
+                            Ok(())
+                        });
+                        // until the silent answer is reached (the answers before it are "right")
+                        for _ in 0..4000 {
+                            if silent_hit.load(std::sync::atomic::Ordering::SeqCst) || ended.lock().unwrap().is_some() {
+                                break;
+                            }
+                            ctx.sleep(time::Duration::milliseconds(2)).await?;
+                        }
+                    } else {
                         // the scripted peer lives in an inner scope: it is cancelled when the play loop returns
                         let (ended2, requested2, pos2, manager2) = (ended.clone(), requested.clone(), pos.clone(), manager.clone());
                         let _: Result<(), ctx::Error> = scope::run!(ctx, |ctx, s2| async move {
@@ -165,7 +193,7 @@ fn main() {
                         })
                         .await;
                     }
-                    if *gave_bad.lock().unwrap() && ended.lock().unwrap().is_none() {
+                    if *gave_bad.lock().unwrap() && ended.lock().unwrap().is_none() && !silent_case {
                         rep.lock().unwrap().count("drift_bad_answer_did_not_end_the_connection");
                     }
                     {
@@ -206,15 +234,21 @@ fn main() {
                         });
                     }
                     let mut done = false;
-                    for _ in 0..15000 {
+                    // a silent peer holds the request: the honest one gets it only through the call's timeout (300 ms); the window ends well before the silent handler gives up
+                    let t_start = std::time::Instant::now();
+                    let window = if silent_case && silent_hit.load(std::sync::atomic::Ordering::SeqCst) { std::time::Duration::from_millis(4500) } else { std::time::Duration::from_secs(30) };
+                    while t_start.elapsed() < window {
                         if manager.queued().next().0 >= first + nblocks as u64 {
                             done = true;
                             break;
                         }
                         ctx.sleep(time::Duration::milliseconds(2)).await?;
                     }
+                    let _ = rel_tx.send(());
                     let mut g = rep.lock().unwrap();
-                    if !done {
+                    if !done && silent_case && silent_hit.load(std::sync::atomic::Ordering::SeqCst) {
+                        g.fail("fetch_request_lost", format!("a peer received get_block, keeps the connection open and does not answer; 4.5 s later (get_block_timeout = 300 ms) the request is still with it although an honest peer that has every block is connected: next = {}, wanted {}", manager.queued().next().0, first + nblocks as u64), tag.clone());
+                    } else if !done {
                         g.fail("fetch_request_lost", format!("with an honest peer that has every block connected for 30 s the node still misses blocks: next = {}, wanted {} (requests to the honest peer: {:?})", manager.queued().next().0, first + nblocks as u64, hreq.lock().unwrap()), tag.clone());
                     } else if let Some(e) = check_store("at the end") {
                         g.fail("store_not_genuine", e, tag.clone());
